@@ -595,7 +595,14 @@ Fixpoint exec (fuel : nat) (st : stmt) (s : state) {struct fuel} : res (outcome 
           do s2 <- set_ret s1 ret v; Ok (Normal, s2)
       | SNewObj x cls objs ctor args =>
           do vs <- eval_list s args;
-          let name := ("#" ++ nat_string (fresh s) ++ ".")%string in
+          (* the new object's prefix: "#<n>." by default; the harness may reserve a prefix for (the next) object of a class
+             with the entry "alloc:<class>" of ptrs -- names are labels, the only requirement is that they are unused, which is checked *)
+          let name := match lget (ptrs s) ("alloc:" ++ cls)%string with
+                      | Some (VPtr p _) => p
+                      | _ => ("#" ++ nat_string (fresh s) ++ ".")%string
+                      end in
+          if negb (forallb (fun x : string * ity * Z => match mget (mem s) (name ++ fst (fst x))%string with None => true | Some _ => false end) objs)
+          then UB "new: the object's names are in use" else
           let s0 := {| mem := alloc_objs cls name objs (mem s); loc := lset (loc s) x (VPtr name 0); pre := pre s; files := files s;
                        ptrs := lset (ptrs s) (class_key name) (VPtr cls 0); fresh := S (fresh s) |} in
           match ctor with
